@@ -161,6 +161,8 @@ pub struct SessionRecord {
     pub secret: Vec<u8>,
     /// The transport parameters this session sent (honest encoding before any override)
     pub my_params: Vec<u8>,
+    /// what was actually put into the handshake (differs from `my_params` under a params override)
+    pub sent_params: Vec<u8>,
 }
 
 #[derive(Default, Debug)]
@@ -246,6 +248,7 @@ impl MockSession {
             side: self.side,
             secret: self.secret.clone(),
             my_params: self.my_params.clone(),
+            sent_params: self.sent_params.clone(),
         });
     }
 }
